@@ -78,6 +78,8 @@ def delta(e, g):
         ("tsv-escapes-not-decoded", lambda: C.tsv_encode(e)),
         ("tsv-lazy-escapes-not-decoded", lambda: C.tsv_encode_lazy(e)),
         ("tsv-escapes-decoded-twice", lambda: C.tsv_decode(e)),
+        ("tsv-escapes-not-decoded+invalid-utf8->U+FFFD", lambda: C.tsv_encode(e.decode("utf-8", "replace").encode("utf-8"))),
+        ("tsv-lazy-escapes-not-decoded+invalid-utf8->U+FFFD", lambda: C.tsv_encode_lazy(e.decode("utf-8", "replace").encode("utf-8"))),
         ("invalid-utf8->U+FFFD", lambda: e.decode("utf-8", "replace").encode("utf-8")),
         ("invalid-utf8-dropped", lambda: e.decode("utf-8", "ignore").encode("utf-8")),
         ("edge-spaces-trimmed", lambda: e.strip(b" ")),
@@ -118,7 +120,8 @@ def diff_records(exp, got, limit=6):
     out = []
     if len(exp) != len(got):
         d = "record-count"
-        rule = lambda r: bool(r) and all(re.fullmatch(rb":?-{3,}:?", v) for _, v in r)
+        rule = lambda r: bool(r) and all(re.fullmatch(rb":?-+:?", v) for _, v in r)
+        allcls = "+".join(sorted(set().union(*[F.classes_of(x) for r in exp for kv in r for x in kv]) - {"empty"})) if exp else ""
         if len(exp) - len([r for r in exp if _all_empty(r)]) == len(got):
             d = "all-empty-records-dropped"
         elif len(got) > len(exp) and len([r for r in got if not rule(r)]) == len(exp):
@@ -127,11 +130,13 @@ def diff_records(exp, got, limit=6):
             d = "all-blank-records-dropped"
         elif len(got) < len(exp) and all(r in exp for r in got):
             d = "records-lost"
-        return [{"where": "structure", "delta": d, "cls": "", "exp": len(exp), "got": len(got), "at": None}]
+        return [{"where": "structure", "delta": d, "cls": allcls if d in ("record-count", "records-lost") else "", "exp": len(exp),
+                 "got": len(got), "at": None}]
     seen = set()
     for ri, (er, gr) in enumerate(zip(exp, got)):
         if len(er) != len(gr):
-            out.append({"where": "structure", "delta": "field-count", "cls": "", "exp": len(er), "got": len(gr), "at": ri})
+            rcls = "+".join(sorted(set().union(*[F.classes_of(x) for kv in er for x in kv]) - {"empty"})) if er else ""
+            out.append({"where": "structure", "delta": "field-count", "cls": rcls, "exp": len(er), "got": len(gr), "at": ri})
             if len(out) >= limit:
                 break
             continue
